@@ -62,3 +62,31 @@ Example C05_example :
   st_chan (run q [OpEmit r1; OpStep; OpEmit r2; OpStep]) = [] /\
   st_sink (run q [OpEmit r1; OpEmit r2; OpStep; OpStep]) = [direct q r1; direct q r2].
 Proof. vm_compute. repeat split; reflexivity. Qed.
+
+(* ---- overflow strategy `expand`: the buffer is migrated to a larger channel under the write lock
+   (Model/Direct.v ystep; locked = true is the code as it is: the consumer's receive holds the read
+   lock).  For every schedule of emissions, consumer steps and expansions: ---- *)
+Theorem C05_expand_sink_is_prefix : forall q ops,
+  let s := yrun true q ops in
+  y_sink s ++ map (direct q) (ypending s) = map (direct q) (y_acc s).
+Proof. exact expand_sink_is_prefix. Qed.
+Print Assumptions C05_expand_sink_is_prefix.
+
+Theorem C05_expand_keeps_order : forall q ops,
+  ypending (yrun true q ops) = [] ->
+  delivered (y_sink (yrun true q ops)) = delivered (map (direct q) (y_acc (yrun true q ops))).
+Proof. exact expand_keeps_order. Qed.
+Print Assumptions C05_expand_keeps_order.
+
+(* ... and the lock is needed: a consumer that receives from the reference it loaded before the
+   migration (locked = false) delivers row 2 before row 1.  Rows {a:1} {a:2} {a:3} buffered, the
+   expander has moved the first one, then the consumer takes a row from the old channel. *)
+Example C05_stale_receive_reorders :
+  let a := [97]%N in
+  let q := {| q_items := [ICol a a]; q_where := None |} in
+  let r := fun n => [(a, VNum (inject_Z n))] in
+  let ops := [YEmit (r 1%Z); YEmit (r 2%Z); YEmit (r 3%Z); YBegin; YMove; YStep; YMove; YMove; YSwap; YStep; YStep; YStep] in
+  ypending (yrun false q ops) = [] /\
+  y_sink (yrun false q ops) = [direct q (r 2%Z); direct q (r 1%Z); direct q (r 3%Z)] /\
+  y_sink (yrun true q ops) = [direct q (r 1%Z); direct q (r 2%Z); direct q (r 3%Z)].
+Proof. vm_compute. repeat split; reflexivity. Qed.
